@@ -87,3 +87,35 @@ def alignment(scc, config=None, **_):
   if f is None:
     return False, "\n".join(out) + "\nidentical"
   return True, "\n".join(out) + "\n" + f[2]
+
+
+def cells(kind, model=None, obligation=None, **_):
+  """the cell coordinates of the counter-model (and the whole 608 grid) through the real convert_cells_to_percentages"""
+  from fractions import Fraction
+  import ttconv.scc.utils as U
+  import ttconv.style_properties as S
+  from ttconv.model import CellResolutionType
+  m = {k: int(str(v)) for k, v in (model or {}).items() if str(v).lstrip("-").isdigit()}
+  res = CellResolutionType(rows=15, columns=32)
+  pts = [(m.get("x", 0), m.get("y", 0))] + [(x, y) for x in range(-2, 40) for y in range(-2, 20)]
+  bad = []
+
+  def conv(x, y):
+    arg = U.get_position_from_offsets(x, y) if kind == "origin" else U.get_extent_from_dimensions(x, y)
+    out = U.convert_cells_to_percentages(arg, res)
+    a, b = (out.x, out.y) if kind == "origin" else (out.width, out.height)
+    return a, b
+
+  for x, y in pts:
+    try:
+      a, b = conv(x, y)
+      _, b2 = conv(x, y + 1)
+    except Exception as e:      # pylint: disable=broad-except
+      bad.append(f"({x},{y}): {type(e).__name__}: {e}")
+      continue
+    want = (round(Fraction(100 * x, 32)), round(Fraction(100 * y, 15)))
+    if (a.value, b.value) != want or a.units is not S.LengthType.Units.pct or b.units is not S.LengthType.Units.pct or not b2.value > b.value:
+      bad.append(f"({x},{y}) cells -> ({a.value}{a.units.value},{b.value}{b.units.value}), next row {b2.value}; nearest integers are {want}")
+    if len(bad) >= 3:
+      break
+  return bool(bad), "\n".join(bad) or "no cell coordinate of the grid is converted wrongly by this tree"
